@@ -255,6 +255,18 @@ for nm, m in [("values", 1), ("values", 8), ("copy", 1), ("copy", 16), ("str", 1
         exempt=[r"REACH: \[(?!%s\])" % nm])
 
 
+# ---------------------------------------------------------------------------
+# I1 isolation frame (sequential half of C20)
+# ---------------------------------------------------------------------------
+STUB_CELL = ["core::cell::Cell::set->cell_set_monitor"]
+for nm, m in (("chunk", 1), ("chunk", 8), ("chunk", 16), ("fresh", 1), ("fresh", 16)):
+    H("i1_frame_%s_m%d" % (nm, m), "__verif::i1", "I1", quick=["C20"] if (nm, m) in (("chunk", 1), ("fresh", 1), ("fresh", 16)) else [], thorough=["C20"],
+      timeout=1500, cost=90, stubs=STUB_CUT + STUB_CELL, inst="Bump<%d> x 2" % m,
+      funcs=["Bump::try_alloc_layout", "Bump::set_allocation_limit", "Bump::iter_allocated_chunks", "Bump::reset", "<Bump as Drop>::drop", "Cell::set (monitored)"],
+      bounds={"arena_A": "chunk-less" if nm == "fresh" else "one chunk, symbolic geometry (<= 1 KiB)", "arena_B": "chunk-less or one 256-byte chunk (symbolic), any limit",
+              "operation_on_A": "one of {try_alloc_layout(any layout), set_allocation_limit(any), iterate, reset, drop}", "threads": "none (sequential footprint only)"})
+
+
 for x in "abcdef":
     H("x_f3_" + x, "__verif::xp", "X", timeout=600, mem_gb=12)
 
